@@ -1,7 +1,7 @@
 (** C08 proofs, part 2: every setter and every getter extends the journal by entries whose
     reverts bring the state back (up to [eqv]) — the one-step "undo . apply = id". *)
 From Coq Require Import List ZArith NArith Bool Lia.
-From Kardia Require Import C08.Model C08.ProofsEqv.
+From Kardia Require Import C08.Model C08.ProofsEqv C08.ProofsInv.
 Import ListNotations.
 Local Open Scope N_scope.
 
@@ -26,20 +26,30 @@ Qed.
 (** shape invariants the reverts rely on: no empty slot set in the access list (DeleteSlot
     truncates the slice when a set becomes empty) and logSize within uint64 *)
 Definition NE (l : list (list N)) : Prop := Forall (fun sm => sm <> nil) l.
-Definition wfK (s : state) : Prop := NE (st_alslots s) /\ st_logsize s < two64.
+(** every index stored in accessList.addresses points into accessList.slots *)
+Definition al_ok (s : state) : Prop :=
+  forall a idx, st_aladdrs s a = Some (Some idx) -> nth_error (st_alslots s) idx <> None.
+(** [wfU] is stable under journal reverts; [al_ok] is re-established after a revert from the
+    state the revert returns to *)
+Definition wfU (s : state) : Prop := NE (st_alslots s) /\ st_logsize s < two64.
+Definition wfK (s : state) : Prop := wfU s /\ al_ok s.
 
-Ltac wk := try (unfold wfK; intros [? ?]; split; ss; auto; fail).
+Lemma wfK_frame : forall s s', st_alslots s' = st_alslots s -> st_aladdrs s' = st_aladdrs s ->
+  st_logsize s' = st_logsize s -> wfK s -> wfK s'.
+Proof. intros s s' A B C [[H1 H2] H3]; unfold wfK, wfU, al_ok; rewrite A, B, C; auto. Qed.
 
 (** [ext s0 s1]: s1 is s0 plus journalled changes; the revision bookkeeping is untouched *)
 Definition ext (s0 s1 : state) : Prop :=
   st_revs s1 = st_revs s0 /\ st_nextrev s1 = st_nextrev s0 /\ (wfK s0 -> wfK s1) /\
+  pt s1 = pt s0 /\ (SI s0 -> SI s1) /\
   exists es, st_journal s1 = es ++ st_journal s0 /\ eqv (rewind (length es) s1) s0.
 
 Lemma ext_intro : forall s0 s1 es,
   st_revs s1 = st_revs s0 -> st_nextrev s1 = st_nextrev s0 -> (wfK s0 -> wfK s1) ->
-  st_journal s1 = es ++ st_journal s0 -> eqv (undos es s1) s0 -> ext s0 s1.
+  st_journal s1 = es ++ st_journal s0 -> eqv (undos es s1) s0 ->
+  pt s1 = pt s0 -> (SI s0 -> SI s1) -> ext s0 s1.
 Proof.
-  intros s0 s1 es R N W J E; split; [|split; [|split]]; auto. exists es; split; auto.
+  intros s0 s1 es R N W J E P I; split; [|split; [|split; [|split; [|split]]]]; auto. exists es; split; auto.
   eapply eqv_trans; [apply (rewind_undos _ _ _ J)|exact E].
 Qed.
 
@@ -48,8 +58,8 @@ Proof. intro s; apply (ext_intro s s nil); auto. apply eqv_refl. Qed.
 
 Lemma ext_trans : forall s0 s1 s2, ext s0 s1 -> ext s1 s2 -> ext s0 s2.
 Proof.
-  intros s0 s1 s2 (R1 & N1 & W1 & es1 & J1 & E1) (R2 & N2 & W2 & es2 & J2 & E2).
-  split; [|split; [|split]]; try congruence; auto. exists (es2 ++ es1). split.
+  intros s0 s1 s2 (R1 & N1 & W1 & P1 & I1 & es1 & J1 & E1) (R2 & N2 & W2 & P2 & I2 & es2 & J2 & E2).
+  split; [|split; [|split; [|split; [|split]]]]; try congruence; auto. exists (es2 ++ es1). split.
   - rewrite J2, J1, app_assoc; reflexivity.
   - rewrite app_length, rewind_add.
     eapply eqv_trans; [|exact E1]. apply rewind_eqv; auto.
@@ -58,16 +68,18 @@ Proof.
 Qed.
 
 (** a step that only changes [eqv]-invisible things *)
-Lemma ext_silent : forall s s', ctl s' = ctl s -> (wfK s -> wfK s') -> eqv s' s -> ext s s'.
+Lemma ext_silent : forall s s', ctl s' = ctl s -> (wfK s -> wfK s') -> eqv s' s ->
+  pt s' = pt s -> (SI s -> SI s') -> ext s s'.
 Proof.
-  intros s s' C W E; unfold ctl in C; injection C as J R N.
+  intros s s' C W E P I; unfold ctl in C; injection C as J R N.
   apply (ext_intro s s' nil); auto.
 Qed.
 
 Lemma ext_only_objs : forall s s', only_objs s s' -> ext s s'.
 Proof.
-  intros s s' H. apply ext_silent; [apply only_objs_glob; auto | | apply eqv_sym, only_objs_eqv; auto].
-  destruct (only_objs_glob _ _ H) as (G & _). unglob G. unfold wfK. congruence.
+  intros s s' H. apply ext_silent; [apply only_objs_glob; auto | | apply eqv_sym, only_objs_eqv; auto | | apply SI_only_objs; auto].
+  - destruct (only_objs_glob _ _ H) as (G & _). unglob G. apply wfK_frame; congruence.
+  - destruct H as [H _]. rewrite H. reflexivity.
 Qed.
 
 (** ---------------------------------------------------------------- building blocks *)
@@ -102,15 +114,21 @@ Qed.
 Lemma ext_field : forall s a o e o' f b,
   has s a o -> (forall t, undo e t = with_live t a f b) -> o_deleted o' = false ->
   obj_eqv (st_destruct s a) (f o') o ->
+  (forall a0 p pd, e <> JResetObject a0 p pd) -> (coh o -> coh o') ->
   ext s (put_obj (jappend s e) a o').
 Proof.
-  intros s a o e o' f b Hh Hu Hd He.
+  intros s a o e o' f b Hh Hu Hd He Hne Hco.
   destruct (jappend_fields s e) as (J & G & O & R & N).
-  apply (ext_intro s _ [e]); [ss; auto | ss; auto | | ss; rewrite J; reflexivity | ].
-  - unglob G. unfold wfK; ss. congruence.
+  apply (ext_intro s _ [e]); [ss; auto | ss; auto | | ss; rewrite J; reflexivity | | | ].
+  3: { unfold pt; ss. unglob G. unfold jappend. destruct (dirtied e); ss; reflexivity. }
+  3: { intro HI. apply SI_put; [apply SI_jappend; auto; intros; subst; exfalso; eapply Hne; eauto|].
+       apply Hco. destruct HI as (_ & B & _). eapply B. apply Hh. }
+  - unglob G. apply wfK_frame; ss; congruence.
   - cbn [undos fold_left]. rewrite Hu.
     destruct (with_live_spec (put_obj (jappend s e) a o') a f b) as (G' & _ & P).
-    eapply (eqv_frame s s); [apply eqv_refl | | reflexivity |].
+    eapply (eqv_frame s s); [apply eqv_refl | | reflexivity | |].
+    3: { rewrite with_live_crashed. unfold live. rewrite peek_put, eqb_refl', Hd. ss.
+         unfold jappend. destruct (dirtied e); reflexivity. }
     + rewrite G', <- G. unfold glob; ss; reflexivity.
     + intro x; rewrite P. destruct (has_peek _ _ _ Hh) as (Pk & _).
       eqb x a.
@@ -120,6 +138,7 @@ Proof.
 Qed.
 
 Ltac sj := unfold jappend; cbn [dirtied]; ss.
+Ltac wkf := (apply wfK_frame; sj; reflexivity).
 
 Lemma reset_undo_eqv : forall s1 a p, st_objs s1 a = Some p ->
   eqv (undo (JResetObject a p (st_destruct s1 a))
@@ -159,11 +178,17 @@ Proof.
     apply (ext_intro s1 _ [JResetObject a p (st_destruct s1 a)]).
     + destruct (st_destruct s1 a); sj; reflexivity.
     + destruct (st_destruct s1 a); sj; reflexivity.
-    + destruct (st_destruct s1 a); unfold wfK; sj; auto.
+    + destruct (st_destruct s1 a); wkf.
     + destruct (st_destruct s1 a); sj; reflexivity.
     + cbn [undos fold_left]. apply reset_undo_eqv; auto.
-  - apply (ext_intro s1 _ [JCreateObject a]); [sj; reflexivity | sj; reflexivity | unfold wfK; sj; auto | sj; reflexivity |].
-    cbn [undos fold_left]. apply create_undo_eqv. rewrite Hp; auto.
+    + destruct (st_destruct s1 a); unfold pt; sj; reflexivity.
+    + intro HI. apply SI_put; [|apply coh_new].
+      assert (Cp : coh p) by (destruct HI as (_ & B & _); eauto).
+      apply SI_jappend; [|intros a0 p0 pd0 Heq; inversion Heq; subst; exact Cp].
+      destruct (st_destruct s1 a); [exact HI|]. eapply SI_frame; [| | |exact HI]; reflexivity.
+  - apply (ext_intro s1 _ [JCreateObject a]); [sj; reflexivity | sj; reflexivity | wkf | sj; reflexivity | | unfold pt; sj; reflexivity | ].
+    + cbn [undos fold_left]. apply create_undo_eqv. rewrite Hp; auto.
+    + intro HI. apply SI_put; [|apply coh_new]. apply SI_jappend; auto. intros; discriminate.
 Qed.
 
 Lemma get_or_new_spec : forall s a,
@@ -179,10 +204,12 @@ Proof.
 Qed.
 
 (** replacing a live object by an indistinguishable one is invisible *)
-Lemma ext_put_eqv : forall s a o o', has s a o -> obj_eqv (st_destruct s a) o' o -> ext s (put_obj s a o').
+Lemma ext_put_eqv : forall s a o o', has s a o -> obj_eqv (st_destruct s a) o' o -> (coh o -> coh o') ->
+  ext s (put_obj s a o').
 Proof.
-  intros s a o o' Hh He. apply ext_silent; [reflexivity| unfold wfK; ss; auto |].
-  eapply (eqv_frame s s); [apply eqv_refl | reflexivity | reflexivity |].
+  intros s a o o' Hh He Hco. apply ext_silent; [reflexivity| wkf | | reflexivity |
+    intro HI; apply SI_put; auto; apply Hco; destruct HI as (_ & B & _); eapply B; apply Hh].
+  eapply (eqv_frame s s); [apply eqv_refl | reflexivity | reflexivity | | reflexivity].
   intro x; rewrite peek_put. eqb x a.
   - destruct (has_peek _ _ _ Hh) as (P & _). rewrite P. exact He.
   - apply opt_rel_refl, obj_eqv_refl.
@@ -191,7 +218,7 @@ Qed.
 Lemma ext_set_balance : forall s a o v, has s a o -> ext s (obj_set_balance s a o v).
 Proof.
   intros s a o v Hh; unfold obj_set_balance.
-  eapply (ext_field s a o _ _ (fun o' => seto_data o' (setac_balance (o_data o') (ac_balance (o_data o)))) true); auto.
+  eapply (ext_field s a o _ _ (fun o' => seto_data o' (setac_balance (o_data o') (ac_balance (o_data o)))) true); auto; try (intros; discriminate); try (intros Hc kk vv Hk; exact (Hc kk vv Hk)).
   - apply Hh.
   - constructor; ss; auto.
 Qed.
@@ -201,10 +228,12 @@ Proof.
   intros s a. apply (ext_intro s _ [JTouch a]).
   - unfold touch. destruct (N.eqb a ripemd); sj; reflexivity.
   - unfold touch. destruct (N.eqb a ripemd); sj; reflexivity.
-  - unfold touch, wfK. destruct (N.eqb a ripemd); sj; auto.
+  - unfold touch. destruct (N.eqb a ripemd); wkf.
   - unfold touch. destruct (N.eqb a ripemd); sj; reflexivity.
   - cbn [undos fold_left undo]. unfold touch. destruct (N.eqb a ripemd); sj; constructor; ss; auto;
       intro x; apply opt_rel_refl, obj_eqv_refl.
+  - unfold touch, pt. destruct (N.eqb a ripemd); sj; reflexivity.
+  - intro HI. apply SI_touch; auto.
 Qed.
 
 Lemma add_balance_ext : forall s a v, ext s (add_balance s a v).
@@ -233,7 +262,7 @@ Lemma set_nonce_ext : forall s a n, ext s (set_nonce s a n).
 Proof.
   intros s a n; unfold set_nonce. destruct (get_or_new_spec s a) as (E & Hh).
   destruct (get_or_new s a) as [s1 o]; ss. eapply ext_trans; [exact E|].
-  eapply (ext_field s1 a o _ _ (fun o' => seto_data o' (setac_nonce (o_data o') (ac_nonce (o_data o)))) true); auto.
+  eapply (ext_field s1 a o _ _ (fun o' => seto_data o' (setac_nonce (o_data o') (ac_nonce (o_data o)))) true); auto; try (intros; discriminate); try (intros Hc kk vv Hk; exact (Hc kk vv Hk)).
   - apply Hh.
   - constructor; ss; auto.
 Qed.
@@ -242,7 +271,7 @@ Lemma set_code_ext : forall s a c, ext s (set_code s a c).
 Proof.
   intros s a c; unfold set_code. destruct (get_or_new_spec s a) as (E & Hh).
   destruct (get_or_new s a) as [s1 o]; ss. eapply ext_trans; [exact E|].
-  eapply (ext_field s1 a o _ _ (fun o' => seto_dirtycode (seto_data o' (setac_code (o_data o') (ac_code (o_data o)))) true) true); auto.
+  eapply (ext_field s1 a o _ _ (fun o' => seto_dirtycode (seto_data o' (setac_code (o_data o') (ac_code (o_data o)))) true) true); auto; try (intros; discriminate); try (intros Hc kk vv Hk; exact (Hc kk vv Hk)).
   - apply Hh.
   - constructor; ss; auto.
 Qed.
@@ -253,6 +282,7 @@ Proof.
   destruct (get_or_new s a) as [s1 o]; ss.
   pose proof (obj_get_state_val (st_destruct s1 a) o k) as Hv.
   pose proof (obj_get_state_obj (st_destruct s1 a) o k) as Ho.
+  pose proof (obj_get_state_coh (st_destruct s1 a) o k) as Hcoh.
   destruct (obj_get_state (st_destruct s1 a) o k) as [oc prev]; ss. subst prev.
   (* the state after the cache fill *)
   set (o1 := match oc with Some o' => o' | None => o end).
@@ -260,7 +290,8 @@ Proof.
   assert (Ho1 : obj_eqv (st_destruct s1 a) o o1).
   { unfold o1; destruct oc; [apply Ho; reflexivity | apply obj_eqv_refl]. }
   assert (E2 : ext s1 s2).
-  { unfold s2; destruct oc; [|apply ext_refl]. eapply ext_put_eqv; eauto. apply obj_eqv_sym. apply Ho; reflexivity. }
+  { unfold s2; destruct oc; [|apply ext_refl].
+    eapply ext_put_eqv; [exact Hh | apply obj_eqv_sym; apply Ho; reflexivity | apply Hcoh; reflexivity]. }
   assert (H2 : has s2 a o1).
   { unfold s2, o1; destruct oc; [|exact Hh]. split; ss; [unfold fupd; rewrite eqb_refl'; reflexivity|].
     rewrite <- (oe_deleted _ _ _ (Ho o0 eq_refl)). apply Hh. }
@@ -268,7 +299,7 @@ Proof.
   destruct (N.eqb (state_val (st_destruct s1 a) o k) v).
   - eapply ext_trans; eauto.
   - eapply ext_trans; [exact E|]. eapply ext_trans; [exact E2|].
-    eapply (ext_field s2 a o1 _ _ (fun o' => seto_dirty o' (fupd (o_dirty o') k (state_val (st_destruct s1 a) o k))) true); auto.
+    eapply (ext_field s2 a o1 _ _ (fun o' => seto_dirty o' (fupd (o_dirty o') k (state_val (st_destruct s1 a) o k))) true); auto; try (intros; discriminate); try (intros Hc kk vv Hk; exact (Hc kk vv Hk)).
     + ss. apply H2.
     + rewrite D2. constructor; ss; auto.
       intro k'; unfold state_val at 1; ss. unfold fupd. eqb k' k.
@@ -281,9 +312,10 @@ Lemma reset_undo_eqv' : forall s1 a p t,
   st_objs s1 a = Some p ->
   glob t = glob (if st_destruct s1 a then s1 else set_destruct s1 (tupd (st_destruct s1) a true)) ->
   (forall x, x <> a -> st_objs t x = st_objs s1 x) ->
+  st_crashed t = st_crashed s1 ->
   eqv (undo (JResetObject a p (st_destruct s1 a)) t) s1.
 Proof.
-  intros s1 a p t Hl G Hx. unfold undo.
+  intros s1 a p t Hl G Hx Hcr. unfold undo.
   destruct (st_destruct s1 a) eqn:Da; unglob G; constructor; ss; try congruence; try (intros; congruence).
   - intro x; unfold peek; ss; unfold fupd. eqb x a; [rewrite Hl | rewrite Hx by auto; replace (st_trie t) with (st_trie s1) by congruence];
       apply opt_rel_refl, obj_eqv_refl.
@@ -308,10 +340,16 @@ Proof.
   apply (ext_intro s1 _ [JResetObject a p (st_destruct s1 a)]).
   - destruct (st_destruct s1 a); sj; reflexivity.
   - destruct (st_destruct s1 a); sj; reflexivity.
-  - destruct (st_destruct s1 a); unfold wfK; sj; auto.
+  - destruct (st_destruct s1 a); wkf.
   - destruct (st_destruct s1 a); sj; reflexivity.
   - cbn [undos fold_left]. apply reset_undo_eqv'; auto.
-    intros x Hx. apply N.eqb_neq in Hx. destruct (st_destruct s1 a); sj; unfold fupd; rewrite !Hx; reflexivity.
+    + intros x Hx. apply N.eqb_neq in Hx. destruct (st_destruct s1 a); sj; unfold fupd; rewrite !Hx; reflexivity.
+    + destruct (st_destruct s1 a); sj; reflexivity.
+  - destruct (st_destruct s1 a); unfold pt; sj; reflexivity.
+  - intro HI. assert (Cp : coh p) by (destruct HI as (_ & Bo & _); eauto).
+    apply SI_put; [apply SI_put; [|apply coh_new]|intros kk vv Hk; discriminate].
+    apply SI_jappend; [|intros a0 p0 pd0 Heq; inversion Heq; subst; exact Cp].
+    destruct (st_destruct s1 a); [exact HI|]. eapply SI_frame; [| | |exact HI]; reflexivity.
 Qed.
 
 Lemma suicide_ext : forall s a, ext s (fst (suicide s a)).
@@ -319,7 +357,7 @@ Proof.
   intros s a; unfold suicide. destruct (get_obj_spec s a) as (H1 & H2 & H3).
   destruct (get_obj s a) as [s1 r]; ss. destruct r as [o|]; ss; [|apply ext_only_objs; auto].
   eapply ext_trans; [apply ext_only_objs; eauto|]. specialize (H3 o eq_refl).
-  eapply (ext_field s1 a o _ _ (fun o' => seto_data (seto_suicided o' (o_suicided o)) (setac_balance (o_data o') (ac_balance (o_data o)))) false); auto.
+  eapply (ext_field s1 a o _ _ (fun o' => seto_data (seto_suicided o' (o_suicided o)) (setac_balance (o_data o') (ac_balance (o_data o)))) false); auto; try (intros; discriminate); try (intros Hc kk vv Hk; exact (Hc kk vv Hk)).
   - apply H3.
   - constructor; ss; auto.
 Qed.
@@ -331,10 +369,14 @@ Lemma refl_objs : forall s x, opt_rel (obj_eqv (st_destruct s x)) (peek s x) (pe
 Proof. intros; apply opt_rel_refl, obj_eqv_refl. Qed.
 
 Ltac pk := (intro; unfold peek; ss; apply opt_rel_refl, obj_eqv_refl).
+Ltac sig := (let HSI := fresh "HSI" in intro HSI;
+             first [ eapply SI_glob1; [exact HSI | sj; reflexivity | sj; reflexivity | sj; reflexivity | reflexivity]
+                   | eapply SI_glob2; [exact HSI | sj; reflexivity | sj; reflexivity | sj; reflexivity | reflexivity | reflexivity] ]).
+Ltac sil := (let HSI := fresh "HSI" in intro HSI; eapply SI_frame; [| | |exact HSI]; reflexivity).
 
 Lemma add_refund_ext : forall s g, ext s (add_refund s g).
 Proof.
-  intros s g; unfold add_refund. apply (ext_intro s _ [JRefund (st_refund s)]); try (sj; reflexivity); try (unfold wfK; sj; tauto).
+  intros s g; unfold add_refund. apply (ext_intro s _ [JRefund (st_refund s)]); try (sj; reflexivity); try sig; try wkf.
   cbn [undos fold_left undo]; sj. constructor; ss; auto; try pk.
 Qed.
 
@@ -342,7 +384,7 @@ Lemma sub_refund_ext : forall s g, ext s (fst (sub_refund s g)).
 Proof.
   intros s g; unfold sub_refund.
   destruct (N.ltb (st_refund (jappend s (JRefund (st_refund s)))) g); ss;
-  (apply (ext_intro s _ [JRefund (st_refund s)]); try (sj; reflexivity); try (unfold wfK; sj; tauto);
+  (apply (ext_intro s _ [JRefund (st_refund s)]); try (sj; reflexivity); try sig; try wkf;
    cbn [undos fold_left undo]; sj; constructor; ss; auto; try pk).
 Qed.
 
@@ -367,8 +409,8 @@ Qed.
 
 Lemma add_log_ext : forall s p, st_logsize s < two64 -> ext s (add_log s p).
 Proof.
-  intros s p Hw; unfold add_log. apply (ext_intro s _ [JAddLog (st_thash s)]); try (sj; reflexivity).
-  { unfold wfK; sj. intros [? ?]; split; auto. apply N.mod_lt. discriminate. }
+  intros s p Hw; unfold add_log. apply (ext_intro s _ [JAddLog (st_thash s)]); try (sj; reflexivity); try sig.
+  { unfold wfK, wfU, al_ok; sj. intros [[? ?] ?]; repeat split; auto. apply N.mod_lt. discriminate. }
   cbn [undos fold_left]. sj.
   erewrite undo_addlog_snoc; [|ss; unfold tupd; rewrite eqb_refl'; reflexivity].
   ss. constructor; ss; auto; try pk.
@@ -379,7 +421,7 @@ Qed.
 Lemma add_preimage_ext : forall s h p, ext s (add_preimage s h p).
 Proof.
   intros s h p; unfold add_preimage. destruct (st_preimages s h) eqn:Ep; [apply ext_refl|].
-  apply (ext_intro s _ [JAddPreimage h]); try (sj; reflexivity); try (unfold wfK; sj; tauto).
+  apply (ext_intro s _ [JAddPreimage h]); try (sj; reflexivity); try sig; try wkf.
   cbn [undos fold_left undo]; sj. constructor; ss; auto; try pk.
   intro x; unfold fdel, fupd. eqb x h; auto.
 Qed.
@@ -387,7 +429,7 @@ Qed.
 Lemma set_transient_ext : forall s a k v, ext s (set_transient_state s a k v).
 Proof.
   intros s a k v; unfold set_transient_state. destruct (N.eqb (st_transient s a k) v); [apply ext_refl|].
-  apply (ext_intro s _ [JTransient a k (st_transient s a k)]); try (sj; reflexivity); try (unfold wfK; sj; tauto).
+  apply (ext_intro s _ [JTransient a k (st_transient s a k)]); try (sj; reflexivity); try sig; try wkf.
   cbn [undos fold_left undo]; sj. constructor; ss; auto; try pk.
   intros x y. rewrite eqb_refl'. eqb x a; [|reflexivity]. unfold tupd. eqb y k; reflexivity.
 Qed.
@@ -395,7 +437,9 @@ Qed.
 Lemma add_address_al_ext : forall s a, ext s (add_address_al s a).
 Proof.
   intros s a; unfold add_address_al. destruct (st_aladdrs s a) eqn:Ea; [apply ext_refl|].
-  apply (ext_intro s _ [JALAddr a]); try (sj; reflexivity); try (unfold wfK; sj; tauto).
+  apply (ext_intro s _ [JALAddr a]); try (sj; reflexivity); try sig.
+  { unfold wfK, wfU, al_ok; sj. intros [[? ?] Hk]; repeat split; auto.
+    intros x idx; unfold fupd. destruct (N.eqb x a); [discriminate|apply Hk]. }
   cbn [undos fold_left undo]; sj. constructor; ss; auto; try pk.
   intro x; unfold fdel, fupd. eqb x a; auto.
 Qed.
@@ -447,9 +491,27 @@ Proof.
   unfold NE; induction l; destruct n; cbn; intro H; auto. inversion H; subst. constructor; auto.
 Qed.
 
-Lemma add_slot_al_ext : forall s a k, NE (st_alslots s) -> ext s (add_slot_al s a k).
+Lemma list_set_length : forall (V : Type) (l : list V) i v, length (list_set l i v) = length l.
+Proof. induction l; destruct i; cbn; intros; auto. Qed.
+
+Lemma al_ok_list_set : forall s i v, al_ok s -> al_ok (set_alslots s (list_set (st_alslots s) i v)).
 Proof.
-  intros s a k Hne; unfold add_slot_al.
+  intros s i v H a idx Ha; ss. specialize (H a idx Ha). rewrite nth_error_Some in *. rewrite list_set_length. exact H.
+Qed.
+
+Lemma al_ok_snoc : forall s a v (F : state -> state),
+  al_ok s -> (forall t, st_aladdrs (F t) = st_aladdrs t) -> (forall t, st_alslots (F t) = st_alslots t) ->
+  al_ok (F (set_alslots (set_aladdrs s (fupd (st_aladdrs s) a (Some (length (st_alslots s))))) (st_alslots s ++ [v]))).
+Proof.
+  intros s a v F H F1 F2 x idx. rewrite F1, F2; ss. unfold fupd. rewrite nth_error_Some, app_length. cbn [length].
+  destruct (N.eqb x a).
+  - intro E; inversion E; subst. lia.
+  - intro E. specialize (H x idx E). rewrite nth_error_Some in H. lia.
+Qed.
+
+Lemma add_slot_al_ext : forall s a k, NE (st_alslots s) -> al_ok s -> ext s (add_slot_al s a k).
+Proof.
+  intros s a k Hne Hok; unfold add_slot_al.
   assert (Fn : nth_error (st_alslots s ++ [[k]]) (length (st_alslots s)) = Some [k]).
   { rewrite nth_error_app2 by lia. rewrite Nat.sub_diag. reflexivity. }
   assert (Ff : firstn (length (st_alslots s)) (st_alslots s ++ [[k]]) = st_alslots s).
@@ -457,8 +519,9 @@ Proof.
   destruct (st_aladdrs s a) as [[idx|]|] eqn:Ea.
   - destruct (nth_error (st_alslots s) idx) as [sm|] eqn:En.
     + destruct (mem k sm) eqn:Em; [apply ext_refl|].
-      apply (ext_intro s _ [JALSlot a k]); try (sj; reflexivity).
-      { unfold wfK; sj. intros [? ?]; split; auto. apply NE_list_set; auto. destruct sm; discriminate. }
+      apply (ext_intro s _ [JALSlot a k]); try (sj; reflexivity); try sig.
+      { unfold wfK, wfU; sj. intros [[? ?] Hk]; repeat split; auto; [apply NE_list_set; auto; destruct sm; discriminate|].
+        apply (al_ok_list_set s idx (sm ++ [k]) Hk). }
       cbn [undos fold_left undo].
       erewrite delete_slot_al_spec; [| sj; exact Ea | sj; eapply nth_error_list_set; eauto].
       rewrite remove_n_snoc by auto.
@@ -466,16 +529,20 @@ Proof.
       { unfold NE in Hne. rewrite Forall_forall in Hne. apply Hne. eapply nth_error_In; eauto. }
       destruct sm as [|x sm']; [congruence|]. sj.
       constructor; ss; auto; try pk. eapply list_set_list_set; eauto.
-    + apply ext_silent; [reflexivity| unfold wfK; ss; auto |]. constructor; ss; auto; try pk.
-  - apply (ext_intro s _ [JALSlot a k]); try (sj; reflexivity).
-    { unfold wfK; sj. intros [? ?]; split; auto. apply NE_snoc; auto. }
+    + exfalso. exact (Hok a idx Ea En).
+  - apply (ext_intro s _ [JALSlot a k]); try (sj; reflexivity); try sig.
+    { unfold wfK, wfU; sj. intros [[? ?] Hk]; repeat split; auto; [apply NE_snoc; auto|].
+      intros x idx; ss. unfold fupd. rewrite nth_error_Some, app_length. cbn [length].
+      destruct (N.eqb x a); [intro E; inversion E; subst; lia | intro E; specialize (Hk x idx E); rewrite nth_error_Some in Hk; lia]. }
     cbn [undos fold_left undo].
     erewrite delete_slot_al_spec; [| sj; unfold fupd; rewrite eqb_refl'; reflexivity | sj; exact Fn].
     rewrite remove_n_single. sj. rewrite Ff.
     constructor; ss; auto; try pk.
     intro x; unfold fupd. eqb x a; auto.
-  - apply (ext_intro s _ [JALSlot a k; JALAddr a]); try (sj; reflexivity).
-    { unfold wfK; sj. intros [? ?]; split; auto. apply NE_snoc; auto. }
+  - apply (ext_intro s _ [JALSlot a k; JALAddr a]); try (sj; reflexivity); try sig.
+    { unfold wfK, wfU; sj. intros [[? ?] Hk]; repeat split; auto; [apply NE_snoc; auto|].
+      intros x idx; ss. unfold fupd. rewrite nth_error_Some, app_length. cbn [length].
+      destruct (N.eqb x a); [intro E; inversion E; subst; lia | intro E; specialize (Hk x idx E); rewrite nth_error_Some in Hk; lia]. }
     cbn [undos fold_left undo].
     erewrite delete_slot_al_spec; [| sj; unfold fupd; rewrite eqb_refl'; reflexivity | sj; exact Fn].
     rewrite remove_n_single. sj. rewrite Ff.
@@ -496,12 +563,14 @@ Proof.
     specialize (H3 o eq_refl).
     pose proof (obj_get_state_obj (st_destruct s1 a) o k) as Ho1.
     pose proof (obj_get_committed_obj (st_destruct s1 a) o k) as Ho2.
+    pose proof (obj_get_state_coh (st_destruct s1 a) o k) as Hc1.
+    pose proof (obj_get_committed_coh (st_destruct s1 a) o k) as Hc2.
     eapply ext_trans; [apply ext_only_objs; eauto|].
     destruct c.
     - destruct (obj_get_committed (st_destruct s1 a) o k) as [[o'|] v]; ss; [|apply ext_refl].
-      eapply ext_put_eqv; eauto. apply obj_eqv_sym; auto.
+      eapply ext_put_eqv; [exact H3 | apply obj_eqv_sym; auto | apply Hc2; reflexivity].
     - destruct (obj_get_state (st_destruct s1 a) o k) as [[o'|] v]; ss; [|apply ext_refl].
-      eapply ext_put_eqv; eauto. apply obj_eqv_sym; auto. }
+      eapply ext_put_eqv; [exact H3 | apply obj_eqv_sym; auto | apply Hc1; reflexivity]. }
   destruct q; unfold read; auto; apply ext_refl.
 Qed.
 
@@ -516,7 +585,7 @@ Definition plain (o : op) : bool :=
 
 Lemma step_ext : forall s o, wfK s -> plain o = true -> ext s (fst (step s o)).
 Proof.
-  intros s o [Hne Hls] Hp; destruct o; try discriminate; unfold step; ss.
+  intros s o [[Hne Hls] Hok] Hp; destruct o; try discriminate; unfold step; ss.
   - apply create_account_ext.
   - apply add_balance_ext.
   - apply sub_balance_ext.
@@ -532,6 +601,6 @@ Proof.
   - apply add_address_al_ext.
   - apply add_slot_al_ext; auto.
   - apply set_transient_ext.
-  - apply ext_silent; [reflexivity| unfold wfK; ss; auto |]. constructor; ss; auto; try pk.
+  - apply ext_silent; [reflexivity| wkf | | reflexivity | sil]. constructor; ss; auto; try pk.
   - apply read_ext.
 Qed.
